@@ -399,7 +399,8 @@ class World:
         dp = float(np.linalg.norm(back[:3] - m.rv0[:3]))
         dv = float(np.linalg.norm(back[3:] - m.rv0[3:]))
         ctx.observe("state_back_m", dp)
-        if dp > 1e-4 or dv > 1e-7:
+        # rounding of a chain of frame conversions and back (observed up to 1.2e-4 m at 4.5e7 m over 18 000 thorough runs): 1e-3 m + 1e-10 |r|
+        if dp > 1e-3 + 1e-10 * float(np.linalg.norm(m.rv0[:3])) or dv > 1e-6 + 1e-10 * float(np.linalg.norm(m.rv0[3:])):
             ctx.violate("state-untouched", {"kind": "state_moved"}, f"{where}: object {j} converted back to {m.F0} is {dp:.3e} m / {dv:.3e} m/s away from where it started")
 
     # ------------------------------------------------------------- operations
